@@ -225,6 +225,7 @@ def pttLoadDetails (maxBoard : Nat) (es : List Entry) (startIdx : Int) (nBoards 
 inductive Err where
   | fault (f : Fault)
   | invalidParams
+  | invalidBid
   deriving Repr, DecidableEq
 
 abbrev R := Except Err
@@ -318,6 +319,82 @@ def loadDetails (t : Tbl) (by_ : SortBy) (c : Option Cursor) (nBoards : Int) (is
 
 def walkDetails (t : Tbl) (by_ : SortBy) (nBoards : Int) (isAsc : Bool) : R (List (List Entry)) :=
   walkFrom (fun c => loadDetails t by_ c nBoards isAsc) by_ (walkFuel (t.view by_).length) none
+
+/-! ### the class listings: slot order, paged by bid -/
+
+/-- what loadClassBoardStat keeps for SYSOP: a non-vacated slot that is a group/symbolic board ("a class"). -/
+def isClass (e : Entry) : Bool := e.b.name.getD 0 0 != 0 && e.b.grp
+
+/-- bbs.LoadFullClassBoards / ptt.LoadFullClassBoards: `slots` is the board table in SLOT order (`slots[i].bid = i`);
+the loop runs `for bid := startBid; ; bid++` until `bid - 1 >= BNumber` or `nBoards + 1` classes are collected — the
+frame of the other listings, ascending over the slots. -/
+def loadFullClass (maxBoard : Nat) (slots : List Entry) (startBid : Int) (nBoards : Int) : R Page :=
+  if ¬ (1 ≤ startBid ∧ startBid ≤ Int.ofNat maxBoard) then .error .invalidBid     -- !startBid.IsValid()
+  else liftM (pttLoadG (gather (fun _ => false) isClass) slots startBid nBoards true)
+
+/-- the client loop over `next_bid` (0 = no next page). -/
+def walkBid (load : Int → R Page) : Nat → Int → R (List (List Entry))
+  | 0, _ => .error (.fault .diverge)
+  | f + 1, b => do
+    let p ← load b
+    match p.next with
+    | none => pure [p.items]
+    | some e => do
+      let rest ← walkBid load f (Int.ofNat e.bid + 1)
+      pure (p.items :: rest)
+
+def walkFullClass (maxBoard : Nat) (slots : List Entry) (nBoards : Int) : R (List (List Entry)) :=
+  walkBid (fun b => loadFullClass maxBoard slots b nBoards) (walkFuel slots.length) 1
+
+/-- what bbs.LoadClassBoards reads and writes in shared memory besides the table: per slot `(Gid, ChildCount)` and
+whether `FirstChild[byName]` / `FirstChild[byClass]` is set (cache.SortBCache zeroes both on every (re)load). -/
+structure ClsState where
+  links : List (Nat × Nat)
+  first : List (Bool × Bool)
+  deriving Repr
+
+def ClsState.fresh (links : List (Nat × Nat)) : ClsState := ⟨links, links.map fun _ => (false, false)⟩
+
+/-- the chain cache.ResolveBoardGroup links for a class: the non-vacated boards whose `Gid` is the class, in the order
+of `BSorted[by']` (sub-classes and ordinary boards alike).  Not mirrored: a board that is its own `Gid`. -/
+def childrenOf (t : Tbl) (links : List (Nat × Nat)) (classBid : Int) (by' : SortBy) : List Entry :=
+  (t.view by').filter fun e =>
+    decide (Int.ofNat (links.getD e.bid (0, 0)).1 = classBid) && e.b.name.getD 0 0 != 0
+
+def ClsState.firstSet (st : ClsState) (i : Nat) : SortBy → Bool
+  | .name => (st.first.getD i (false, false)).1
+  | .cls => (st.first.getD i (false, false)).2
+
+def ClsState.childCount (st : ClsState) (i : Nat) : Nat := (st.links.getD i (0, 0)).2
+
+def ClsState.setChildCount (st : ClsState) (i : Nat) (c : Nat) : ClsState :=
+  ⟨st.links.set i ((st.links.getD i (0, 0)).1, c), st.first⟩
+
+def ClsState.markFirst (st : ClsState) (i : Nat) : SortBy → ClsState
+  | .name => ⟨st.links, st.first.set i (true, (st.first.getD i (false, false)).2)⟩
+  | .cls => ⟨st.links, st.first.set i ((st.first.getD i (false, false)).1, true)⟩
+
+/-- bbs.LoadClassBoards / ptt.LoadClassBoards (root class 1 is always listed by class).
+  * `FirstChild[by'] == 0 || ChildCount == 0` ⇒ cache.ResolveBoardGroup: links the chain, sets `FirstChild[by']` when
+    there is a child and — since fix ebc3be0 — stores the number of children it linked in `ChildCount`;
+  * the walk over the chain keeps the children that are classes themselves, at most `ChildCount + 5` of them;
+  * "Ptt: dirty fix": more listed than `ChildCount` ⇒ `ChildCount := 0`.
+On a table that does not change between the calls the chain in place is the chain a resolve would link.  Not
+mirrored (unobservable, see `loadClassBoards_history`): LoadFullClassBoards resolves every class it scans too. -/
+def loadClassBoards (t : Tbl) (st : ClsState) (classBid : Int) (by_ : SortBy) : R (List Entry × ClsState) :=
+  if ¬ (1 ≤ classBid ∧ classBid ≤ Int.ofNat t.maxBoard) then .error .invalidBid
+  else
+    let by' := if classBid = 1 then SortBy.cls else by_
+    let i := (classBid - 1).toNat
+    let ch := childrenOf t st.links classBid by'
+    let st1 :=
+      if !st.firstSet i by' || st.childCount i == 0 then
+        let s := st.setChildCount i ch.length
+        if ch.isEmpty then s else s.markFirst i by'
+      else st
+    let listed := gather (fun _ => false) isClass ch (st1.childCount i + 5)
+    let st2 := if st1.childCount i < listed.length then st1.setChildCount i 0 else st1
+    pure (listed, st2)
 
 def walkAuto (t : Tbl) (nBoards : Int) (kw : List Nat) (isAsc : Bool) : R (List (List Entry)) :=
   walkFrom (fun c => loadAuto t c nBoards kw isAsc) .name (walkFuel t.byName.length) none
